@@ -69,6 +69,9 @@ type plan struct {
 	// FiniHow (C05): how the final Fini finds the screen: 0 running,
 	// 1 suspended, 2 suspended after a Resume whose tty start failed
 	FiniHow int
+	// PollCalls: the polling goroutine also calls Size()/SetContent after
+	// each of its pauses (one goroutine that both draws and polls)
+	PollCalls bool
 }
 
 type shutdownPlan struct {
@@ -82,7 +85,13 @@ type shutdownPlan struct {
 }
 
 func drawTok(t *rapid.T, id int, w, h int) tok {
-	switch rapid.IntRange(0, 9).Draw(t, "tokkind") {
+	switch rapid.IntRange(0, 10).Draw(t, "tokkind") {
+	case 10:
+		// a release, then the same buttonless motion report twice (the
+		// pointer reported again in the same cell): three events
+		x, y := id%30+1, (id/3)%12+1
+		m := fmt.Sprintf("mouse:%d,%d:%d:0", x-1, y-1, tcell.ButtonNone)
+		return tok{"mouse", []byte(fmt.Sprintf("\x1b[<0;%d;%dm\x1b[<35;%d;%dM\x1b[<35;%d;%dM", x, y, x, y, x, y)), m + "|" + m + "|" + m}
 	case 0, 1, 2, 3:
 		r := rune('a' + id%26)
 		return tok{"rune", []byte(string(r)), fmt.Sprintf("key:Rune:%c:0", r)}
@@ -214,6 +223,7 @@ func drawPlan(t *rapid.T, mode string) *plan {
 	} else {
 		p.Shutdown.Kind = "fini"
 		p.FiniHow = rapid.SampledFrom([]int{0, 0, 0, 1, 1, 2}).Draw(t, "finihow")
+		p.PollCalls = rapid.Bool().Draw(t, "pollcalls")
 		if rapid.IntRange(0, 2).Draw(t, "midsuspend") == 0 {
 			// one Suspend/Resume somewhere in the application's script
 			at := rapid.IntRange(0, len(p.App)).Draw(t, "suspendat")
@@ -240,7 +250,8 @@ type delivery struct {
 var appKinds = []string{"draw", "show", "sync", "post", "pending", "size", "mouse", "paste"}
 
 type ew struct {
-	holdFeed bool
+	holdFeed   bool
+	inLoopCall bool // the polling goroutine is inside a (locking) Screen call
 	*hx.World
 	p       *plan
 	mode    string
@@ -410,6 +421,14 @@ func (w *ew) pollerActor() {
 		if st.Stall > 0 {
 			w.Tty.Faults.Inc("stall_poller")
 			simrt.Sleep("poller.stall", hx.Ms(st.Stall))
+			if w.p.PollCalls {
+				// an event loop that draws between polls: it comes back from
+				// its pause with a call that takes the screen lock
+				w.inLoopCall = true
+				w.Scr.Size()
+				w.Scr.SetContent(0, 0, 'p', nil, tcell.StyleDefault)
+				w.inLoopCall = false
+			}
 		}
 	}
 }
@@ -813,6 +832,12 @@ func run(t *rapid.T, mode string) {
 	}
 	if w.initErr != nil {
 		t.Fatalf("HARNESS: Init failed: %v", w.initErr)
+	}
+	if !inconclusive && mode == "C05" && w.inLoopCall && st == simrt.Quiescent {
+		// nothing can run any more, and the goroutine that polls is stuck in a
+		// Screen call: the library is waiting (with the screen lock) for the
+		// application to poll, the application for the lock
+		w.Failf("C05/backpressure-deadlock", "the event loop is blocked in Size()/SetContent while the input pipeline waits for it to poll: %v", s.Blocked())
 	}
 	if !inconclusive {
 		if mode == "C05" {
